@@ -12,8 +12,9 @@ How the obligations are decided (RULES_HOWTO rule 9):
 Descriptor collections are elaboration-time configuration, like the packet size: three fixed collections (dense, sparse
 indices, large/empty/type 0 and 15) are swept; nothing here depends on request histories.
 
-Known genuine defect (F16): ConstantStreamGenerator.start_position is Signal(range(data_length)); see the two
-C09.offset-lossless obligations and /tmp/w_C09/witness.py (PYTHONPATH=<tree> /venv/bin/python /tmp/w_C09/witness.py).
+Genuine defect found by this rule (F16), repaired in /repo by 525aceb: ConstantStreamGenerator.start_position was
+Signal(range(data_length)) and could not hold the descriptor length; the two C09.offset-lossless obligations fire again if
+that returns (simulation witness kept as documentation: witness/C09/witness.py).
 """
 import ast
 import struct
